@@ -8,9 +8,9 @@ def register(prop, J):
               "fields, JSON nulls, whitespace, full \\u / %XX escaping, alternative number spellings) decoded by the library; "
               "non-trivial = emit: value has an interesting leaf or depth >= 2, accept: every case; distinct by (direction, type, format, document)",
          jobs=[
-             J("conf-v2", "v2", "codecprops", "^TestC03", checks=(8000, 400000), shards=(4, 16), prepare="prepare_codec",
+             J("conf-v2", "v2", "codecprops", "^TestC03", checks=(8000, 3200000), shards=(4, 16), prepare="prepare_codec",
                extra_pkgs=["dyn", "gendrv"], timeout=(900, 3000)),
-             J("conf-v1", "v1", "codecprops", "^TestC03", checks=(6000, 200000), shards=(4, 16), prepare="prepare_codec",
+             J("conf-v1", "v1", "codecprops", "^TestC03", checks=(6000, 1600000), shards=(4, 16), prepare="prepare_codec",
                extra_pkgs=["dyn", "gendrv"], timeout=(900, 3000)),
          ],
          level_text="differential testing in both directions against a reference encoder/decoder pair written from the protocol rules "
